@@ -23,7 +23,8 @@
  ***************************************************************************)
 EXTENDS Integers, Sequences, FiniteSets, TLC, Json
 
-CONSTANTS Classes,      \* sequence, root first: <<"A","B","C">>  (a chain)
+CONSTANTS Classes,      \* sequence, root first: <<"A","B","C">>
+          MroOf,        \* MroOf[c]: the method resolution order of c, c first, root last (a chain, or a diamond)
           NameSeq,      \* sequence of the parameter names declared on the root
           Kind,         \* Kind[n] \in {"plain", "mut_inst", "mut_shared", "const", "readonly", "noperinst"}
           Extra,        \* a name that can be added later with add_parameter
@@ -36,8 +37,15 @@ Names == {NameSeq[i] : i \in 1..Len(NameSeq)}
 NameIdx(n) == CHOOSE i \in 1..Len(NameSeq) : NameSeq[i] = n
 CSet == {Classes[i] : i \in 1..Len(Classes)}
 Idx(c) == CHOOSE i \in 1..Len(Classes) : Classes[i] = c
-Mro(c) == [i \in 1..Idx(c) |-> Classes[Idx(c) + 1 - i]]         \* c first, root last
-Sub(c) == {Classes[i] : i \in Idx(c)..Len(Classes)}             \* c and its descendants
+Mro(c) == MroOf[c]
+Sub(c) == {d \in CSet : \E i \in 1..Len(MroOf[d]) : MroOf[d][i] = c}      \* c and its descendants
+DeclIn(cd, c, n) == \E i \in 1..Len(MroOf[c]) : cd[MroOf[c][i]][n] # 0
+HolderIn(cd, c, n) == MroOf[c][CHOOSE i \in 1..Len(MroOf[c]) : cd[MroOf[c][i]][n] # 0 /\ \A j \in 1..i-1 : cd[MroOf[c][j]][n] = 0]
+\* objects lists of Selector-like parameters are cells holding a set of tokens, encoded as a bit mask
+Bit(v) == CASE v = 1 -> 1 [] v = 2 -> 2 [] v = 3 -> 4
+Has(mask, v) == (mask \div Bit(v)) % 2 = 1
+Add(mask, v) == IF Has(mask, v) THEN mask ELSE mask + Bit(v)
+SelKinds == {"sel0", "sel1"}
 AllNames == Names \cup {Extra}
 
 IntV(n) == [t |-> "int", v |-> n]
@@ -56,30 +64,33 @@ InstVal(i, n) == IF I[i].vals[n] # Unset THEN I[i].vals[n] ELSE ClassVal(I[i].cl
 
 NewParam(kind, dflt, owner) ==
   [default |-> dflt, constant |-> kind \in {"const", "constnone", "readonly"}, readonly |-> kind = "readonly",
-   inst |-> kind = "mut_inst", perinst |-> kind # "noperinst", bounds |-> 0, owner |-> owner]
+   inst |-> kind = "mut_inst", perinst |-> kind # "noperinst", bounds |-> 0, owner |-> owner, ol |-> 0]
 
 \* ---- projection: everything C12 / C13 / C14 talk about ---------------------------------------
 ValObs(v) == IF v.t = "cell" THEN [t |-> "cell", id |-> v.id, c |-> cells[v.id]] ELSE v
 ObsOf(P2, cd2, ce2, I2) ==   \* evaluated on the primed state by the callers
   [editopen |-> (\E j \in 1..Len(I2) : I2[j].edit > 0),
-   classes |-> [c \in CSet |-> [n \in {m \in AllNames : \E k \in 1..Idx(c) : cd2[Classes[k]][m] # 0} |->
-       LET h == Classes[CHOOSE k \in 1..Idx(c) : cd2[Classes[k]][n] # 0 /\ \A j \in k+1..Idx(c) : cd2[Classes[j]][n] = 0]
+   classes |-> [c \in CSet |-> [n \in {m \in AllNames : DeclIn(cd2, c, m)} |->
+       LET h == HolderIn(cd2, c, n)
            p == P2[cd2[h][n]]
        IN [val |-> (IF p.default.t = "cell" THEN [t |-> "cell", id |-> p.default.id, c |-> ce2[p.default.id]] ELSE p.default),
-           holder |-> h, bounds |-> p.bounds, constant |-> p.constant]]],
-   insts |-> [i \in 1..Len(I2) |-> [n \in {m \in AllNames : \E k \in 1..Idx(I2[i].cls) : cd2[Classes[k]][m] # 0} |->
+           holder |-> h, bounds |-> p.bounds, constant |-> p.constant, objs |-> IF p.ol = 0 THEN 0 ELSE ce2[p.ol]]]],
+   insts |-> [i \in 1..Len(I2) |-> [n \in {m \in AllNames : DeclIn(cd2, I2[i].cls, m)} |->
        LET c == I2[i].cls
-           h == Classes[CHOOSE k \in 1..Idx(c) : cd2[Classes[k]][n] # 0 /\ \A j \in k+1..Idx(c) : cd2[Classes[j]][n] = 0]
+           h == HolderIn(cd2, c, n)
            cp == P2[cd2[h][n]]
            ip == IF I2[i].ip[n] # 0 THEN P2[I2[i].ip[n]] ELSE cp
            v == IF I2[i].vals[n] # Unset THEN I2[i].vals[n] ELSE cp.default
        IN [val |-> (IF v.t = "cell" THEN [t |-> "cell", id |-> v.id, c |-> ce2[v.id]] ELSE v),
-           own |-> I2[i].ip[n] # 0, bounds |-> ip.bounds, constant |-> ip.constant]]]]
+           own |-> I2[i].ip[n] # 0, bounds |-> ip.bounds, constant |-> ip.constant, objs |-> IF ip.ol = 0 THEN 0 ELSE ce2[ip.ol]]]]]
 
 Init == /\ P = [i \in 1..Len(NameSeq) |->
-                  NewParam(Kind[NameSeq[i]], IF Kind[NameSeq[i]] \in {"mut_inst", "mut_shared", "const"} THEN Cell(i)
-                           ELSE IF Kind[NameSeq[i]] = "constnone" THEN [t |-> "none"] ELSE IntV(0), Classes[1])]
-        /\ cells = [i \in 1..Len(NameSeq) |-> 0]
+                  [NewParam(Kind[NameSeq[i]], IF Kind[NameSeq[i]] \in {"mut_inst", "mut_shared", "const"} THEN Cell(i)
+                            ELSE IF Kind[NameSeq[i]] \in {"constnone", "sel0"} THEN [t |-> "none"]
+                            ELSE IF Kind[NameSeq[i]] = "sel1" THEN IntV(1) ELSE IntV(0), Classes[1])
+                   EXCEPT !.ol = IF Kind[NameSeq[i]] \in SelKinds THEN i ELSE 0]]
+        \* (cell i: the default list of a mutable-valued parameter i, or the objects list of a Selector-like one)
+        /\ cells = [i \in 1..Len(NameSeq) |-> IF Kind[NameSeq[i]] = "sel1" THEN Bit(1) ELSE 0]
         /\ cdict = [c \in CSet |-> [n \in AllNames |-> IF c = Classes[1] /\ n \in Names THEN NameIdx(n) ELSE 0]]
         /\ I = <<>> /\ nops = 0
         /\ hist = IF RecordHist
@@ -102,21 +113,27 @@ ReadNS(c) == /\ "readns" \in Acts /\ Step
              /\ UNCHANGED <<P, cdict, cells, I>>
              /\ Rec("readns", [c |-> c], "ok", P, cdict, cells, I, {})
 
+\* the per-instance copy of a class Parameter: a shallow copy whose mutable attributes (the objects list)
+\* are copied as well (_instantiate_param_obj); given the cells so far, returns <<record, cells'>>
+InstCopy(src, ce) == IF P[src].ol = 0 THEN <<P[src], ce>>
+                     ELSE <<[P[src] EXCEPT !.ol = Len(ce) + 1], Append(ce, ce[P[src].ol])>>
 \* `i.param[n]`: creates the per-instance Parameter copy if the Parameter is per_instance
 InstParam(i, n) ==
   /\ "instparam" \in Acts /\ Step /\ i \in 1..Len(I) /\ Declared(I[i].cls, n)
   /\ IF I[i].ip[n] = 0 /\ P[Lookup(I[i].cls, n)].perinst
-     THEN /\ P' = Append(P, P[Lookup(I[i].cls, n)])
+     THEN /\ P' = Append(P, InstCopy(Lookup(I[i].cls, n), cells)[1])
+          /\ cells' = InstCopy(Lookup(I[i].cls, n), cells)[2]
           /\ I' = [I EXCEPT ![i].ip[n] = Len(P) + 1]
-     ELSE UNCHANGED <<P, I>>
-  /\ UNCHANGED <<cdict, cells>>
-  /\ Rec("instparam", [i |-> i, n |-> n], "ok", P', cdict, cells, I',
+     ELSE UNCHANGED <<P, I, cells>>
+  /\ UNCHANGED <<cdict>>
+  /\ Rec("instparam", [i |-> i, n |-> n], "ok", P', cdict, cells', I',
          IF EditOpen /\ I[i].edit = 0 /\ I[i].ip[n] = 0 /\ P[Lookup(I[i].cls, n)].constant
          THEN {"KF_ClassFlagClearedDuringEdit"} ELSE {})
 
 \* class-level assignment `c.n = v` : copy-on-write of an inherited Parameter, then set its default
 ClassSet(c, n, v) ==
   /\ "classset" \in Acts /\ Step /\ Declared(c, n)
+  /\ (n \in Names => Kind[n] \notin SelKinds)
   /\ LET src == Lookup(c, n) IN
      IF v = BadV
      THEN \* rejected by validation (out of bounds): nothing changes
@@ -144,38 +161,112 @@ ClassSet(c, n, v) ==
 AddParameter(c, n, v) ==
   /\ "addparam" \in Acts /\ Step
   /\ (n \in Names => Kind[n] = "plain")        \* overriding a declaration: plain parameters only
-  /\ P' = Append(P, NewParam("plain", v, c))
+  \* attributes the new Parameter leaves unset are inherited from the Parameter of the same name that
+  \* follows in c's MRO (C11); here that is the `bounds` token
+  /\ LET up == {j \in 2..Len(Mro(c)) : cdict[Mro(c)[j]][n] # 0}
+         first == CHOOSE j \in up : \A k \in up : j <= k
+         inh == IF up = {} THEN 0 ELSE P[cdict[Mro(c)[first]][n]].bounds
+     IN P' = Append(P, [NewParam("plain", v, c) EXCEPT !.bounds = inh])
   /\ cdict' = [cdict EXCEPT ![c][n] = Len(P) + 1]
   /\ UNCHANGED <<cells, I>>
   /\ Rec("addparam", [c |-> c, n |-> n, v |-> v], "ok", P', cdict', cells, I,
          (IF StaleCopyRisk(c, n) THEN {"KF_StaleInstanceParam"} ELSE {}))
 
 \* constructor: instantiate=True values are deep-copied, constant ones are pinned (same object)
-New(c, kw) ==   \* kw: function from a subset of names to values
+New(c, kw0) ==   \* kw0: function from a subset of names to values
   /\ "new" \in Acts /\ Step /\ Len(I) < MaxInst
-  /\ \A n \in DOMAIN kw : Declared(c, n) /\ ~P[Lookup(c, n)].readonly
-  /\ LET needcopy == {n \in AllNames : Declared(c, n) /\ n \notin DOMAIN kw /\ P[Lookup(c, n)].inst}
+  /\ \A n \in DOMAIN kw0 : Declared(c, n) /\ ~P[Lookup(c, n)].readonly
+  /\ LET \* a keyword whose value is a reference that raises param.Skip when first resolved is not assigned
+         \* at all: the parameter is set up exactly as if the keyword had not been given
+         kw == [n \in {m \in DOMAIN kw0 : kw0[m].t # "skipref"} |-> kw0[n]]
+         needcopy == {n \in AllNames : Declared(c, n) /\ n \notin DOMAIN kw /\ P[Lookup(c, n)].inst}
          \* (at most one instantiate=True parameter in the configurations used)
          ce1 == IF needcopy = {} THEN cells
                 ELSE Append(cells, cells[ClassVal(c, CHOOSE n \in needcopy : TRUE).id])
          kwcell == \E n \in DOMAIN kw : kw[n].t = "newcell"
          ce2 == IF kwcell THEN Append(ce1, 0) ELSE ce1
+         \* a keyword value for a Selector-like parameter that does not check membership extends the objects:
+         \* that is the instance's own business (its own Parameter copy with its own list)
+         selkw == {n \in DOMAIN kw : n \in Names /\ Kind[n] \in SelKinds}
+         n0 == CHOOSE n \in selkw : TRUE
+         src0 == Lookup(c, n0)
+         \* (a value that is already among the objects extends nothing: no copy, the instance keeps following the class)
+         ext == selkw # {} /\ ~Has(cells[P[src0].ol], kw[n0].v)
+         ce3 == IF ~ext THEN ce2 ELSE Append(ce2, Add(cells[P[src0].ol], kw[n0].v))
          vals == [n \in AllNames |->
                     IF ~Declared(c, n) THEN Unset
                     ELSE IF n \in DOMAIN kw THEN (IF kw[n].t = "newcell" THEN Cell(Len(ce2)) ELSE kw[n])
                     ELSE IF P[Lookup(c, n)].inst THEN Cell(Len(ce1))
                     ELSE IF P[Lookup(c, n)].constant THEN ClassVal(c, n)
                     ELSE Unset]
-     IN /\ Cardinality(needcopy) <= 1
-        /\ cells' = ce2
-        /\ I' = Append(I, [cls |-> c, vals |-> vals, ip |-> [n \in AllNames |-> 0], edit |-> 0])
-        /\ UNCHANGED <<P, cdict>>
-        /\ Rec("new", [c |-> c, kw |-> kw], "ok", P, cdict, cells', I',
-               IF EditOpen THEN {"KF_ClassFlagClearedDuringEdit"} ELSE {})
+     IN /\ Cardinality(needcopy) <= 1 /\ Cardinality(selkw) <= 1
+        /\ cells' = ce3
+        /\ P' = IF ~ext THEN P ELSE Append(P, [P[src0] EXCEPT !.ol = Len(ce3)])
+        /\ I' = Append(I, [cls |-> c, vals |-> vals,
+                           ip |-> [n \in AllNames |-> IF ext /\ n \in selkw THEN Len(P) + 1 ELSE 0], edit |-> 0])
+        /\ UNCHANGED <<cdict>>
+        /\ Rec("new", [c |-> c, kw |-> kw0], "ok", P', cdict, cells', I',
+               (IF EditOpen THEN {"KF_ClassFlagClearedDuringEdit"} ELSE {})
+               \cup (IF ext THEN {"KF_CtorKwExtendsClassObjects"} ELSE {}))
+
+\* ---- Selector-like parameters (check_on_set=False): a value outside the objects extends them -------
+\* instance-level assignment: on the instance's own Parameter copy (created on demand) and its own list
+InstSetSel(i, n, v) ==
+  /\ "instset" \in Acts /\ Step /\ i \in 1..Len(I) /\ n \in Names /\ Kind[n] \in SelKinds /\ Declared(I[i].cls, n)
+  /\ LET mk == I[i].ip[n] = 0
+         cp == InstCopy(Lookup(I[i].cls, n), cells)
+         pid == IF mk THEN Len(P) + 1 ELSE I[i].ip[n]
+         P1 == IF mk THEN Append(P, cp[1]) ELSE P
+         ce1 == IF mk THEN cp[2] ELSE cells
+     IN /\ P' = P1
+        /\ cells' = [ce1 EXCEPT ![P1[pid].ol] = Add(@, v.v)]
+        /\ I' = [I EXCEPT ![i].vals[n] = v, ![i].ip[n] = pid]
+        /\ UNCHANGED cdict
+        /\ Rec("instset", [i |-> i, n |-> n, v |-> v, route |-> "attr"], "ok", P', cdict, cells', I', {})
+\* class-level assignment: the copy-on-write copy of an inherited Parameter is shallow, so it shares the
+\* objects list of the Parameter it was copied from; the new value is appended to that list
+ClassSetSel(c, n, v) ==
+  /\ "classset" \in Acts /\ Step /\ n \in Names /\ Kind[n] \in SelKinds /\ Declared(c, n)
+  /\ LET src == Lookup(c, n)
+         own == cdict[c][n] # 0
+         pid == IF own THEN src ELSE Len(P) + 1
+         P1 == IF own THEN P ELSE Append(P, [P[src] EXCEPT !.owner = c])
+     IN /\ P' = [P1 EXCEPT ![pid].default = v]
+        /\ cdict' = [cdict EXCEPT ![c][n] = pid]
+        /\ cells' = [cells EXCEPT ![P[src].ol] = Add(@, v.v)]
+        /\ UNCHANGED I
+        /\ Rec("classset", [c |-> c, n |-> n, v |-> v], "ok", P', cdict', cells', I,
+               IF StaleCopyRisk(c, n) THEN {"KF_StaleInstanceParam"} ELSE {})
+\* in-place mutation of a mutable Parameter attribute: `i.param[n].objects.append(tok)` / `c.param[n].objects.append(tok)`
+InstObjsAppend(i, n, tok) ==
+  /\ "objsappend" \in Acts /\ Step /\ i \in 1..Len(I) /\ n \in Names /\ Kind[n] \in SelKinds /\ Declared(I[i].cls, n)
+  /\ LET mk == I[i].ip[n] = 0
+         cp == InstCopy(Lookup(I[i].cls, n), cells)
+         pid == IF mk THEN Len(P) + 1 ELSE I[i].ip[n]
+         P1 == IF mk THEN Append(P, cp[1]) ELSE P
+         ce1 == IF mk THEN cp[2] ELSE cells
+     IN /\ ~Has(ce1[P1[pid].ol], tok)
+        /\ P' = P1 /\ cells' = [ce1 EXCEPT ![P1[pid].ol] = Add(@, tok)]
+        /\ I' = [I EXCEPT ![i].ip[n] = pid]
+        /\ UNCHANGED cdict
+        /\ Rec("instobjs", [i |-> i, n |-> n, tok |-> tok], "ok", P', cdict, cells', I', {})
+ClassObjsAppend(c, n, tok) ==
+  /\ "objsappend" \in Acts /\ Step /\ n \in Names /\ Kind[n] \in SelKinds /\ Declared(c, n)
+  /\ ~Has(cells[P[Lookup(c, n)].ol], tok)
+  /\ cells' = [cells EXCEPT ![P[Lookup(c, n)].ol] = Add(@, tok)]
+  /\ UNCHANGED <<P, cdict, I>>
+  /\ Rec("classobjs", [c |-> c, n |-> n, tok |-> tok], "ok", P, cdict, cells', I, {})
+\* `c.param[n].precedence = b` : an attribute of the Parameter that governs c (no copy-on-write here)
+ClassMeta(c, n, b) ==
+  /\ "classmeta" \in Acts /\ Step /\ Declared(c, n) /\ ~EditOpen
+  /\ P' = [P EXCEPT ![Lookup(c, n)].bounds = b]
+  /\ UNCHANGED <<cdict, cells, I>>
+  /\ Rec("classmeta", [c |-> c, n |-> n, b |-> b], "ok", P', cdict, cells, I, {})
 
 \* instance-level assignment through attribute access or param.update
 InstSet(i, n, v, route) ==
   /\ "instset" \in Acts /\ Step /\ i \in 1..Len(I) /\ Declared(I[i].cls, n)
+  /\ (n \in Names => Kind[n] \notin SelKinds)
   /\ LET p == P[IParam(i, n)]
          isnew == v.t = "newcell"
          cur == InstVal(i, n)
@@ -183,15 +274,17 @@ InstSet(i, n, v, route) ==
          frozen == p.readonly \/ (p.constant /\ I[i].edit = 0)
      IN \* while an edit_constant block is open on some instance, other instances are left alone
         /\ (EditOpen /\ I[i].edit = 0) => ~P[Lookup(I[i].cls, n)].constant
-        /\ IF v = BadV /\ ~frozen
-           THEN /\ UNCHANGED <<P, cdict, cells, I>>
-                /\ Rec("instset", [i |-> i, n |-> n, v |-> v, route |-> route], "ValueError", P, cdict, cells, I, {})
-           ELSE IF frozen /\ (p.readonly \/ val # cur)
-           THEN /\ UNCHANGED <<P, cdict, cells, I>>
-                /\ Rec("instset", [i |-> i, n |-> n, v |-> v, route |-> route], "TypeError", P, cdict, cells, I, {})
-           ELSE \* (an assignment to an initialized instance is delegated to its per-instance Parameter,
-                \*  which is created on demand)
-                LET mk == I[i].ip[n] = 0 /\ P[Lookup(I[i].cls, n)].perinst IN
+        \* (an assignment to an initialized instance is delegated to its per-instance Parameter, which is
+        \*  created on demand -- before the value is looked at, so a rejected assignment creates it too:
+        \*  like `i.param[n]`, that shows only in which Parameter later attribute edits reach)
+        /\ IF (v = BadV /\ ~frozen) \/ (frozen /\ (p.readonly \/ val # cur))
+           THEN LET mk == I[i].ip[n] = 0 /\ P[Lookup(I[i].cls, n)].perinst IN
+                /\ P' = IF mk THEN Append(P, P[Lookup(I[i].cls, n)]) ELSE P
+                /\ I' = [I EXCEPT ![i].ip[n] = IF mk THEN Len(P) + 1 ELSE @]
+                /\ UNCHANGED <<cdict, cells>>
+                /\ Rec("instset", [i |-> i, n |-> n, v |-> v, route |-> route],
+                       IF v = BadV /\ ~frozen THEN "ValueError" ELSE "TypeError", P', cdict, cells, I', {})
+           ELSE LET mk == I[i].ip[n] = 0 /\ P[Lookup(I[i].cls, n)].perinst IN
                 /\ P' = IF mk THEN Append(P, P[Lookup(I[i].cls, n)]) ELSE P
                 /\ I' = [I EXCEPT ![i].vals[n] = val, ![i].ip[n] = IF mk THEN Len(P) + 1 ELSE @]
                 /\ cells' = IF isnew THEN Append(cells, 0) ELSE cells
@@ -204,11 +297,12 @@ InstMeta(i, n, b) ==
   /\ LET shared == ~P[Lookup(I[i].cls, n)].perinst
          has == I[i].ip[n] # 0
          pid == IF shared THEN Lookup(I[i].cls, n) ELSE IF has THEN I[i].ip[n] ELSE Len(P) + 1
-         P1 == IF shared \/ has THEN P ELSE Append(P, P[Lookup(I[i].cls, n)])
+         P1 == IF shared \/ has THEN P ELSE Append(P, InstCopy(Lookup(I[i].cls, n), cells)[1])
      IN /\ P' = [P1 EXCEPT ![pid].bounds = b]
         /\ I' = IF shared THEN I ELSE [I EXCEPT ![i].ip[n] = pid]
-        /\ UNCHANGED <<cdict, cells>>
-        /\ Rec("instmeta", [i |-> i, n |-> n, b |-> b], "ok", P', cdict, cells, I',
+        /\ cells' = IF shared \/ has THEN cells ELSE InstCopy(Lookup(I[i].cls, n), cells)[2]
+        /\ UNCHANGED <<cdict>>
+        /\ Rec("instmeta", [i |-> i, n |-> n, b |-> b], "ok", P', cdict, cells', I',
                IF EditOpen /\ I[i].edit = 0 /\ ~has /\ P[Lookup(I[i].cls, n)].constant
                THEN {"KF_ClassFlagClearedDuringEdit"} ELSE {})
 
@@ -235,9 +329,11 @@ ExitEdit(i, raising) == /\ "edit" \in Acts /\ i \in 1..Len(I) /\ I[i].edit > 0
                         /\ Rec("exitedit", [i |-> i, raising |-> raising], "ok", P, cdict, cells, I', {})
 
 NewCell == [t |-> "newcell"]
+SkipRef == [t |-> "skipref"]
 ValsFor(n) == IF n \in Names /\ Kind[n] \in {"mut_inst", "mut_shared", "const"} THEN {NewCell}
               ELSE IF n \in Names /\ Kind[n] \in {"plain", "noperinst"} THEN IntVals \cup {BadV} ELSE IntVals
-Kws(c) == {<<>>} \cup UNION {{[x \in {n} |-> v] : v \in ValsFor(n) \ {BadV}} : n \in {m \in Names : Declared(c, m) /\ Kind[m] # "readonly"}}
+Kws(c) == {<<>>} \cup UNION {{[x \in {n} |-> v] : v \in (ValsFor(n) \ {BadV}) \cup (IF Kind[n] = "mut_inst" /\ "skipref" \in Acts THEN {SkipRef} ELSE {})} :
+                                n \in {m \in Names : Declared(c, m) /\ Kind[m] # "readonly"}}
 
 Next ==
   \/ \E c \in CSet : ReadNS(c)
@@ -248,6 +344,11 @@ Next ==
   \/ \E i \in 1..MaxInst, n \in AllNames : \E v \in ValsFor(n) \cup {[t |-> "same"]} :
         \E r \in {"attr", "update"} : InstSet(i, n, v, r)
   \/ \E i \in 1..MaxInst, n \in AllNames : \E b \in {1, 2} : InstMeta(i, n, b)
+  \/ \E i \in 1..MaxInst, n \in Names : \E v \in IntVals : InstSetSel(i, n, v)
+  \/ \E c \in CSet, n \in Names : \E v \in IntVals : ClassSetSel(c, n, v)
+  \/ \E i \in 1..MaxInst, n \in Names : InstObjsAppend(i, n, 3)
+  \/ \E c \in CSet, n \in Names : ClassObjsAppend(c, n, 3)
+  \/ \E c \in CSet, n \in AllNames : \E b \in {1, 2} : ClassMeta(c, n, b)
   \/ \E i \in 1..MaxInst, n \in AllNames : MutateInst(i, n)
   \/ \E c \in CSet, n \in AllNames : MutateClass(c, n)
   \/ \E i \in 1..MaxInst : EnterEdit(i) \/ ExitEdit(i, FALSE) \/ ExitEdit(i, TRUE)
@@ -259,10 +360,21 @@ Spec == Init /\ [][Next]_vars
 ObsNow == ObsOf(P, cdict, cells, I)
 InstOpsLocal ==
   [][\A i \in 1..Len(I) :
-        (Len(I') = Len(I) /\ I'[i] # I[i] /\ cdict' = cdict /\ cells' = cells) =>
+        (Len(I') = Len(I) /\ I'[i] # I[i] /\ cdict' = cdict) =>
            /\ ObsOf(P', cdict', cells', I').classes = ObsNow.classes
            /\ \A j \in 1..Len(I) : (j # i /\ \A n \in AllNames : Declared(I[j].cls, n) => P[Lookup(I[j].cls, n)].perinst)
                                        => ObsOf(P', cdict', cells', I').insts[j] = ObsNow.insts[j]]_vars
+\* C12: creating an instance (with or without keyword values) changes nothing the classes or existing instances see
+NewLocal ==
+  [][Len(I') = Len(I) + 1 =>
+        /\ ObsOf(P', cdict', cells', I').classes = ObsNow.classes
+        /\ \A j \in 1..Len(I) : ObsOf(P', cdict', cells', I').insts[j] = ObsNow.insts[j]]_vars
+\* C12: no per-instance Parameter shares its objects list with a class Parameter or another instance's
+ObjsListsPrivate ==
+  \A i \in 1..Len(I), n \in Names :
+     (I[i].ip[n] # 0 /\ P[I[i].ip[n]].ol # 0) =>
+        /\ \A c \in CSet : Declared(c, n) => P[Lookup(c, n)].ol # P[I[i].ip[n]].ol
+        /\ \A j \in 1..Len(I) : (j # i /\ I[j].ip[n] # 0) => P[I[j].ip[n]].ol # P[I[i].ip[n]].ol
 \* C12: instantiate=True values are private, shared ones are shared by identity, constants are pinned
 InstantiatePrivate ==
   \A i \in 1..Len(I), n \in Names :
